@@ -174,6 +174,7 @@ def main(argv=None):
             led[p] = ids
         json.dump(led, open(ledger_path, 'w'), indent=1, sort_keys=True)
         print('ledger updated:', {p: len(v) for p, v in led.items()})
+        ledger = led
     rc = 0
     for p in props:
         rc = max(rc, report(p, [r for r in results if p in r['props']], {} if a.only else ledger, a.tier, seed, t_start))
